@@ -172,6 +172,7 @@ def run(ctx):
         ctx.tried((n, m, tuple(x[:4]), len(x), tuple(coef)) if len(coef) - 1 >= n else None)
         try:
             du = fornberg.fd_derivative(fx, xa, n, m)
+            ctx.keep('fd_derivative', du, x=xa.tolist(), n=n, m=m)
         except Exception as ex:
             ctx.violation('fd_derivative raised %r' % ex, n=n, m=m, x=x, coef=[str(c) for c in coef])
             continue
